@@ -2,7 +2,7 @@
    adapter + the real Python call produced.  0 = equal to the model, 2 = differs. *)
 From Coq Require Import List Arith Bool.
 Import ListNotations.
-From PySM Require Export Impl.Signature Base.PyVal.
+From PySM Require Export Impl.Signature Base.PyVal Spec.CallSpec.
 
 Inductive ires := IBindTE | ICallTE | ITE (* a TypeError, raised by the binder or by the call *) | IAssigned (a : arguments).
 
@@ -76,11 +76,33 @@ Definition deviates (c : case) : nat :=
   | inl (Assigned a) => if named_ok sig kw a then 0 else 1
   end.
 
+(* the statement of Properties/C07.v (C07_callable_receives_declared_parameters) evaluated on this
+   input: the call fails only with "missing required argument" and exactly when the declarative
+   assignment leaves a parameter without default unbound; otherwise every declared parameter
+   receives what [spec_bind] assigns to it *)
+Definition obval_eqb (a b : option bval) : bool :=
+  match a, b with
+  | Some x, Some y => bval_eqb x y
+  | None, None => true
+  | _, _ => false
+  end.
+
+Definition spec_ok (c : case) : bool :=
+  let '(sig, args, kw0, machine, _) := c in
+  let kw := effective_kw machine kw0 in
+  let B := spec_bind sig args kw in
+  match adapter_call sig args kw with
+  | inr _ => false
+  | inl (CallTypeError w) => Nat.eqb w 4 && missing sig B
+  | inl (Assigned a) => negb (missing sig B)
+                        && forallb (fun p => obval_eqb (arg_lookup (p_name p) a) (received p B)) sig
+  end.
+
 (* 0 = implementation equals model and the contract holds on this input; 1 = implementation equals
    model but the model (hence the code) breaks the contract here (a known deviation, to be matched
    against known_findings.json); 2 = implementation differs from the model *)
 Definition verdict3 (c : case) : nat :=
   match verdict c with
-  | 0 => deviates c
+  | 0 => if spec_ok c then deviates c else 1
   | n => n
   end.
